@@ -36,6 +36,25 @@ def violated(o, end):
     return bad
 
 
+def marker_window(tl):
+    """the last in-flight sender emits the drain marker before the drainer has published Draining; the loop dequeues message and marker in that window"""
+    out, _, rc, err = native.run('marker_window', tl=1 if tl else 0, timeout=60)
+    if rc != 0:
+        raise RuntimeError('native marker_window failed: ' + err[-300:])
+    bad = []
+    if out.get('sent') != '1' or out.get('drained') != '1':
+        bad.append('the_accepted_send_and_the_drain_both_report_ok')
+    if out.get('ended') != '1' or out.get('status') != '6':
+        bad.append('a_drain_never_leaves_the_actor_running')
+    if out.get('handled') != '7':
+        bad.append('the_accepted_message_is_handled_exactly_once')
+    if out.get('ended') == '1' and out.get('terms') != 'terminated:Drained':
+        bad.append('a_drained_actor_stops_by_itself_exactly_once_with_reason_Drained')
+    if out.get('later_send_refused') != '1':
+        bad.append('sends_after_the_drain_are_refused')
+    return {'scenario': 'marker_window', 'thread_local': tl, 'order': out.get('order'), 'status': out.get('status'), 'terms': out.get('terms'), 'handled': out.get('handled'), 'violated': bad}
+
+
 def battery(tl_too=True):
     """run on every check (translator validation of the dequeue slice and the concurrent enqueue slice on the whole actor)"""
     res = []
@@ -47,6 +66,7 @@ def battery(tl_too=True):
         o = run_native(2, 6, 0, 'drain', tl, serialized=1)
         res.append({'threads': 2, 'msgs': 6, 'yields': 0, 'end': 'drain', 'thread_local': tl, 'supervision_events': 0, 'every_second_message_serialized': True, 'handled': len(o['handled']),
                     'accepted': len(o['sent_ok']), 'terms': o['terms'], 'violated': violated(o, 'drain')})
+        res.append(marker_window(tl))
         # a supervisor under load: messages and supervision events arrive from two OS threads at once, then the actor is drained
         o = run_native(1, 4000, 0, 'drain', tl, supevts=20000)
         res.append({'threads': 1, 'msgs': 4000, 'yields': 0, 'end': 'drain', 'thread_local': tl, 'supervision_events': 20000, 'handled': len(o['handled']), 'accepted': len(o['sent_ok']),
